@@ -21,7 +21,10 @@ static tbuf_t *all_bufs;
 static pthread_mutex_t all_lock = PTHREAD_MUTEX_INITIALIZER;
 static _Atomic uint64_t g_seq;
 static _Atomic int g_ntid;
-static int g_events_on, g_pert_mode, g_pert_level, g_nprocs;
+static int g_events_on, g_pert_mode, g_pert_level, g_nprocs, g_nprocs_real;
+static volatile int g_watch_active;
+int hx_extra_threads;
+long hx_cur_case_id = -1;
 static _Atomic int g_arrived;
 static uint64_t g_pert_seed;
 
@@ -141,10 +144,12 @@ void mon_reset(void)
 void mon_enable(int events, uint64_t pert_seed, int pert_mode, int pert_level, int nprocs)
 {
     g_nprocs = nprocs > 64 ? 64 : nprocs;
+    g_nprocs_real = nprocs;
+    g_watch_active = (events && nprocs >= 1);
     g_events_on = events; g_pert_seed = pert_seed; g_pert_mode = pert_mode; g_pert_level = pert_level;
     /* threads are created per factorization: fresh tls each time; old buffers are kept (reset) */
 }
-void mon_disable(void) { g_events_on = 0; g_pert_mode = 0; }
+void mon_disable(void) { g_watch_active = 0; g_events_on = 0; g_pert_mode = 0; }
 
 static int ev_cmp(const void *a, const void *b)
 {
@@ -489,3 +494,40 @@ void mon_analyze(const ev_t *ev, size_t nev, int_t n, const int_t *etree, const 
 
 long mon_slot_allocs(void) { return g_slot_n; }
 void mon_slots_check_report(void) {}
+
+/* ---- deadlock watch ------------------------------------------------------
+ * A worker whose latest scheduler call came back empty-handed holds no panel.  If ALL nprocs workers are in
+ * that state no panel is in progress, so nothing can ever change the scheduler's state again: the factorization
+ * cannot terminate (a lost wake-up).  The condition is logical; the polling period only bounds how soon it is
+ * noticed.  The probe reports it on stderr and leaves (the stuck call cannot be returned from). */
+static void *watch_main(void *arg)
+{
+    (void)arg;
+    int stable = 0; uint64_t lastseq = 0;
+    for (;;) {
+        nap_us(200000);
+        if (!g_watch_active) { stable = 0; continue; }
+        int idle = 0, workers = 0;
+        pthread_mutex_lock(&all_lock);
+        for (tbuf_t *t = all_bufs; t; t = t->next) { if (t->sched_none || t->n) { ++workers; if (t->last_none) ++idle; } }
+        pthread_mutex_unlock(&all_lock);
+        uint64_t sq = atomic_load(&g_seq);
+        if (workers >= g_nprocs_real && idle == workers && sq == lastseq) ++stable; else stable = 0;
+        lastseq = sq;
+        if (stable >= 8 && g_watch_active) {
+            fprintf(stderr, "\n@deadlock %ld all %d workers poll an empty scheduler and none holds a panel (no event for %d polls)\n", hx_cur_case_id, workers, stable);
+            fflush(stderr);
+            _exit(86);
+        }
+    }
+    return NULL;
+}
+void mon_watch_start(void)
+{
+    static int started;
+    if (started) return;
+    started = 1;
+    pthread_t th; pthread_attr_t at;
+    pthread_attr_init(&at); pthread_attr_setdetachstate(&at, PTHREAD_CREATE_DETACHED);
+    if (pthread_create(&th, &at, watch_main, NULL) == 0) hx_extra_threads = 1;
+}
